@@ -118,6 +118,10 @@ def check(prog, rep, tier):
                       'Community.construct applies, a key of the lookup table')
     rep.rule('R17.d', 'no ord() of an integer-indexed bytes value on a live path of the community decoders')
     rep.rule('R17.e', 'every extended-community code ExtCommunity.construct handles encodes to exactly 8 octets')
+    rep.rule('R17.f', 'read coverage: for every extended-community code both directions handle, the decoder reads '
+                      'every value octet in which the encoder places a given value')
+    rep.rule('R17.g', 'range guards of the community encoders do not reject the largest value of a field the '
+                      'decoder can render (x >= 2**k - 1 where x > 2**k - 1 is meant)')
     rep.assumptions += ['float rounding of traffic-rate and numeric ranges are not decided']
     cm = prog.module(CONS)
     STR = prog.fold(cm.assigns['BGP_EXT_COM_STR_DICT'], cm)
@@ -207,11 +211,11 @@ def check(prog, rep, tier):
         rep.ok('R17.d', 'ord-int', file=fp.file, found='no live ord(bytes[int]) in the community decoders')
 
     # ---------------------------------------------------------------- R17.e
+    written = {}
     for code, line in sorted(enc.items()):
         def value(st, code=code):
             item = st.new_obj('list', hint='item')
             st.heap[item.oid].items = [Const(code), Opaque('v1'), Opaque('v2')]
-            st.heap[item.oid].open = True
             lst = st.new_obj('list', hint='value')
             st.heap[lst.oid].items = [item]
             return lst
@@ -232,6 +236,35 @@ def check(prog, rep, tier):
                 lo += a
                 hi += b
             sizes.add((lo - 3, hi - 3))
+            # octets of the 8-octet community that carry a given value (not a constant of the layout)
+            pos = -3
+            var = set()
+            for p in items:
+                if p[0] == 'opq' and isinstance(p[1], Opaque) and '.join(' in p[1].d:
+                    n_, isvar = 6, True
+                elif p[0] == 'opq' and isinstance(p[1], Opaque) and p[1].d.endswith('.packed'):
+                    n_, isvar = 4, True
+                elif p[0] == 'lit':
+                    n_, isvar = len(p[1]), False
+                elif p[0] == 'pack':
+                    fl = BL.fields([p])
+                    for q in fl:
+                        w_ = BL.field_size(q[1])
+                        if not isinstance(q[2], Const):
+                            var |= set(range(pos, pos + w_))
+                        pos += w_
+                    continue
+                else:
+                    a_, b_ = prims.bytes_len(BytesV([p]), s)
+                    if a_ != b_:
+                        var = None
+                        break
+                    n_, isvar = a_, True
+                if isvar:
+                    var |= set(range(pos, pos + n_))
+                pos += n_
+            if var is not None and isinstance(code, int) and code <= 0xffff:
+                written.setdefault(code, set()).update(x for x in var if 2 <= x < 8)
         key = 'size:%s' % code
         if sizes == {(8, 8)}:
             rep.ok('R17.e', key, file=fc.file, line=line)
@@ -240,3 +273,58 @@ def check(prog, rep, tier):
         else:
             rep.bad('R17.e', key, file=fc.file, line=line, func=fc.qualname,
                     found='extended community %s encodes to %s octets' % (code, sorted(sizes)), expected='8', key=key)
+    read_coverage(prog, rep, written, dec)
+    # ---------------------------------------------------------------- R17.g
+    nf, sites = common.boundary_guards(
+        prog, lambda fn: fn.module.name.rsplit('.', 1)[-1] in ('community', 'extcommunity', 'largecommunity')
+        and fn.module.name.startswith('yabgp.message.attribute'), extra_source=common.BOUNDARY_WITNESS)
+    wit = [x for x in sites if x[0] is None]
+    if not wit:
+        raise AnalysisError('R17.g: the detector does not fire on its built-in witness')
+    for fn, c, amax in sites:
+        if fn is None:
+            continue
+        key = 'guard:%s:%s' % (fn.qualname, src_of(c))
+        rep.bad('R17.g', key, file=fn.file, line=c.lineno, func=fn.qualname,
+                found='%s raises for %d, the largest value of a %d-octet field: the decoder renders it, the encoder '
+                      'refuses it' % (src_of(c), amax + 1, common._FIELD_MAX[amax + 1]),
+                expected='reject only values that do not fit the field', key=key)
+    if not [x for x in sites if x[0] is not None]:
+        rep.ok('R17.g', 'range-guards', found='%d functions scanned, witness fires' % nf)
+
+
+def read_coverage(prog, rep, written, dec_codes):
+    fp = prog.func(EXT + '.parse')
+    n = 0
+    for code in sorted(written):
+        if not written[code]:
+            continue
+        key = 'read:%s' % code
+        val = BytesV([('lit', bytes([code >> 8, code & 255])), ('fix', 6, 'v')])
+        try:
+            _f, outs = codec.run(prog, EXT + '.parse', [val], {}, may_raise=False, record_slices=True)
+        except AnalysisError as e:
+            rep.undecided('R17.f', key, file=fp.file, line=fp.node.lineno, found=str(e))
+            continue
+        cov = None
+        for k, v, st in outs:
+            if k != 'val':
+                continue
+            c = set()
+            for a in st.actions:
+                if a.kind == 'slice' and a.meth == 'use' and a.target == 'v':
+                    c |= set(range(a.args[0].value + 2, a.args[1].value + 2))
+            cov = c if cov is None else (cov & c)
+        if cov is None:
+            rep.undecided('R17.f', key, file=fp.file, line=fp.node.lineno, found='no decoder path for this code')
+            continue
+        n += 1
+        miss = sorted(written[code] - cov)
+        if miss:
+            rep.bad('R17.f', key, file=fp.file, line=fp.node.lineno, func=fp.qualname,
+                    found='extended community 0x%04x: the encoder places a value in octets %s, the decoder never '
+                          'reads octet(s) %s' % (code, sorted(written[code]), miss),
+                    expected='every value octet is decoded', key=key)
+        else:
+            rep.ok('R17.f', key, file=fp.file, line=fp.node.lineno, found='octets %s read' % sorted(written[code]))
+    rep.floor('R17.f', 'codes with both directions', n, 15)
